@@ -627,8 +627,12 @@ def judge_jobs(c, ci, runner, jobs, state):
           c.prop_fail(KEY_RANDOM_PAD, 'random strategy: padded dimensions leak into the returned features: continuous %s (real dims: %d), categorical %s (real dims: %d)' % (
               cont_i, cfgc.nc, cat_i, len(cfgc.ar)), dict(case, candidate=i))
           state['random_pad'] = 'leak'
-        elif real[i][2] <= ph and n_above < cfgc.count and np.any(np.isnan(out['cont'][i, 0])):
-          c.prop_fail(KEY_NAN, 'a padded prior row (NaN features) is returned', dict(case, candidate=i))
+        elif real[i][2] <= ph and n_above < cfgc.count and pf is not None and (
+            np.any(np.isnan(out['cont'][i, 0])) or
+            (len(cfgc.ar) and all(int(v) == -1 for v in out['cat'][i, 0][:len(cfgc.ar)]))):
+          # the rows that pad the prior trials up to the padded count carry the fill values of the converter: NaN in
+          # the continuous block, -1 in the categorical block (all a categorical-only space has)
+          c.prop_fail(KEY_NAN, 'a padded prior row (fill values: NaN continuous / -1 categorical features) is returned', dict(case, candidate=i))
         else:
           c.prop_fail('candidate-out-of-bounds' + ('-padding-leak' if pad_leak else ''),
                       'returned candidate %d is out of bounds: continuous %s categorical %s (layout %s)' % (i, cont_i, cat_i, runner.layout),
